@@ -13,6 +13,56 @@ use crate::pkt::*;
 use crate::refmodel::wire::{parse, Verdict};
 use crate::{ensure, fail};
 
+/// A long well-formed datagram described compactly.
+#[derive(Clone, Debug, serde::Serialize, serde::Deserialize)]
+pub struct BigSpec {
+    /// 0: bare header; 1: 8-byte token; 2: token + Uri-Path + option 258;
+    /// 3: 4-byte token + one option with ext16 delta and a 300-byte value
+    pub shape: u8,
+    /// further options (alternating delta 0 / 1) of `opt_len` bytes each
+    pub options: u32,
+    pub opt_len: u32,
+    pub payload_len: u32,
+    /// bytes removed from the end
+    pub cut: u32,
+}
+
+impl BigSpec {
+    pub fn bytes(&self) -> Vec<u8> {
+        let mut m = crate::refmodel::wire::Msg {
+            version: 1,
+            mtype: (self.payload_len & 3) as u8,
+            token: vec![],
+            code: 0x45,
+            mid: 0x1234,
+            options: vec![],
+            payload: pattern(self.payload_len as usize, 7),
+        };
+        match self.shape {
+            0 => {}
+            1 => m.token = vec![1, 2, 3, 4, 5, 6, 7, 8],
+            2 => {
+                m.token = vec![0xAA, 0xBB];
+                m.options.push((11, b"a".to_vec()));
+                m.options.push((258, vec![2]));
+            }
+            _ => {
+                m.token = vec![9, 8, 7, 6];
+                m.options.push((2000, pattern(300, 3)));
+            }
+        }
+        let base = m.options.last().map(|o| o.0).unwrap_or(0);
+        for i in 0..self.options {
+            let num = (base as u32 + i / 2).min(65535) as u16;
+            m.options.push((num, pattern(self.opt_len as usize, i as u8)));
+        }
+        let mut b = m.encode().expect("reference encoder");
+        let keep = b.len().saturating_sub(self.cut as usize);
+        b.truncate(keep);
+        b
+    }
+}
+
 #[derive(Clone, Copy, PartialEq, Eq)]
 pub enum Which {
     C02,
@@ -488,6 +538,46 @@ pub fn run(ctx: &Ctx, rep: &mut Report, which: Which) {
         true,
         cum,
         |_ctx, b: &Vec<u8>, acc| check_bytes(which, false, b, acc),
+    );
+
+    // (c2) large datagrams: payloads and option sections on both sides of
+    // 1280, 64000 (MAX_SIZE with and without `udp`) and 65536
+    let mut big: Vec<BigSpec> = Vec::new();
+    let mut plens: Vec<u32> = (1268..=1292).collect();
+    plens.extend([0, 1, 2000, 4096, 20000, 63980, 63990, 63995, 63996, 63997, 63998, 63999, 64000, 64001, 64002, 64005, 65534, 65535, 65536, 65537, 70000, 131072, 200000]);
+    for &payload_len in &plens {
+        for shape in 0..4u8 {
+            big.push(BigSpec { shape, options: 0, opt_len: 0, payload_len, cut: 0 });
+        }
+    }
+    for (options, opt_len) in [(5u32, 255u32), (5, 256), (100, 12), (100, 13), (110, 300), (250, 268), (250, 269), (1300, 0), (1300, 1), (64010, 0), (3, 65535), (2, 40000), (1, 65804), (1, 65803)] {
+        for payload_len in [0u32, 1, 1280, 64000] {
+            for shape in [0u8, 2] {
+                big.push(BigSpec { shape, options, opt_len, payload_len, cut: 0 });
+            }
+        }
+        // truncated inside the last option value / the payload
+        big.push(BigSpec { shape: 1, options, opt_len, payload_len: 0, cut: 1 });
+        big.push(BigSpec { shape: 1, options, opt_len, payload_len: 5, cut: 6 });
+    }
+    run_list(
+        ctx,
+        rep,
+        "large-datagrams",
+        "well-formed datagrams with payloads of 0..200000 bytes (every length 1268..=1292, neighbours of 64000 and 65536) after four header/option shapes, and option sections of up to 190 KB (many options, values up to 65804 bytes) with and without payload, whole and truncated; non-trivial = longer than 1280 bytes",
+        true,
+        big,
+        |_ctx, c: &BigSpec, acc| {
+            let b = c.bytes();
+            if b.len() > 1280 {
+                acc.nontrivial_enum();
+            }
+            if b.len() > 64000 {
+                acc.class("datagram>64000");
+            }
+            acc.sample("large", || json!(c));
+            check_bytes(which, false, &b, acc)
+        },
     );
 
     // (d) every prefix and every single-byte substitution of well-formed messages
